@@ -114,6 +114,10 @@ def run_shard(shard, ctx):
                 if ctx.out_of_time():
                     return
                 kinds_case(ctx, alg, iso, cfg, name)
+            for _ in range(max(10, unit['n_kinds'] // 8)):
+                if ctx.out_of_time():
+                    return
+                mixed_sequence_case(ctx, alg, iso, cfg, name)
     finally:
         MultiVector.__setitem__ = orig
         ctx.count('setitem_postconditions_evaluated', contracts.EVALS.get('MultiVector.__setitem__', 0))
@@ -154,6 +158,14 @@ def rand_index(rng, shape):
             idx.append(slice(a, rng.randint(a + 1, n)))
         else:
             idx.append(slice(None, None, rng.choice((1, 2))))
+    if rng.random() < 0.18:
+        # index entries that consume no axis (Ellipsis) or add one (None / numpy.newaxis)
+        extra = rng.choice((Ellipsis, None))
+        if extra is Ellipsis:
+            idx = ([Ellipsis] + idx[-1:]) if rng.random() < 0.5 else (idx[:1] + [Ellipsis])
+        else:
+            idx.insert(rng.randint(0, len(idx)), None)
+        return tuple(idx)
     return tuple(idx) if len(idx) > 1 or rng.random() < 0.5 else idx[0]
 
 
@@ -221,12 +233,24 @@ def index_case(ctx, alg, iso, cfg, name):
         return getattr(a, op)(b)
     if checked_getitem(ctx, alg, cfg, name, X, kx, shape, container, idx) is None:
         return
-    st, out = ctx.guarded(30, lambda: (apply(X, Y)[idx], apply(X[idx], Y[idx])))
+    st, out = ctx.guarded(30, lambda: (apply(X, Y), apply(X[idx], Y[idx])))
     if st != 'ok':
         if st == 'exc':
             ctx.note_raised(out, 'index-' + op)
         return
-    whole, part = out
+    full, part = out
+    st, whole = ctx.guarded(30, lambda: full[idx])
+    if st == 'timeout':
+        return
+    if st == 'exc':
+        # the operator succeeded on the arrays and on the indexed operands, but its result cannot be indexed
+        const = [alg.bin2canon[k] for k, v in zip(full.keys(), full.values()) if np.ndim(v) == 0] if hasattr(full, 'keys') else []
+        ctx.count('index_cases')
+        ctx.case(cid)
+        ctx.violation('op(X, Y)[idx] raises although op(X, Y) and op(X[idx], Y[idx]) succeed', cid, config=cfg, op=op, shape=list(shape), container=container,
+                      index=idx_repr(idx), error=f'{type(whole).__name__}: {str(whole)[:120]}', exc_type=type(whole).__name__,
+                      result_blades_with_a_plain_number_coefficient=const, result_blades=[alg.bin2canon[k] for k in full.keys()] if hasattr(full, 'keys') else None)
+        return
     gw, gp_ = mv_dict(whole), mv_dict(part)
     if any(not np.all(np.isfinite(np.asarray(v, dtype=float))) for v in list(gw.values()) + list(gp_.values())):
         ctx.count('nonfinite_results_skipped')
@@ -321,6 +345,67 @@ def setitem_case(ctx, alg, cfg, name):
     if probs:
         ctx.violation('assignment through a multivector touched the wrong entries', cid, config=cfg, keys=list(kx), shape=list(shape),
                       container=container, index=idx_repr(idx), assigned_as=how, problems=probs[:6])
+
+
+def mixed_sequence_case(ctx, alg, iso, cfg, name):
+    """A list/tuple operand whose elements are multivectors of different coefficient kinds (exact numbers, sympy symbols, arrays) on the
+    SAME blades: the result is the sequence of the single results, element by element - whatever kind the neighbours are."""
+    import numpy as np
+    import sympy
+    rng = ctx.rng
+    canon = tuple(alg.canon2bin.values())
+    sym = rng.choice([s for s in INFIX if INFIX[s] not in ('div',)])
+    ks = gen.random_subset(rng, canon, 3, 1)
+    kr = gen.random_subset(rng, canon, 3, 1)
+    R = gen.mv_from(alg, kr, [Fr(gen.small_int(rng, -4, 4, nonzero=True)) for _ in kr])
+
+    def elem(kind, j):
+        if kind == 'num':
+            return gen.mv_from(alg, ks, [Fr(gen.small_int(rng, -4, 4)) for _ in ks])      # zeros allowed
+        if kind == 'sym':
+            return gen.mv_from(alg, ks, [sympy.Symbol(f's{j}_{k}') for k in ks])
+        if kind == 'symzero':
+            t = sympy.Symbol(f't{j}')
+            return gen.mv_from(alg, ks, [t - t if i == 0 else sympy.Symbol(f's{j}_{k}') for i, k in enumerate(ks)])
+        return gen.mv_from(alg, ks, [np.array([rng.randint(-4, 4) / 2.0 for _ in range(3)]) for _ in ks])
+    kinds = [rng.choice(('num', 'sym', 'array', 'symzero')) for _ in range(rng.randint(2, 4))]
+    if len(set(kinds)) == 1:
+        kinds[0] = 'sym' if kinds[0] != 'sym' else 'num'
+    seq_type = rng.choice((list, tuple))
+    seq = seq_type(elem(k, j) for j, k in enumerate(kinds))
+    side = rng.choice(('right', 'left'))
+    cid = [name, 'mixed-sequence', sym, side, kinds, list(ks), list(kr), seq_type.__name__]
+    if not ctx.want(cid):
+        return
+
+    def single(e):
+        return eval(f'a {sym} b', {'a': R, 'b': e} if side == 'right' else {'a': e, 'b': R})
+    singles = [ctx.guarded(30, single, e) for e in seq]
+    if any(st != 'ok' for st, _ in singles):
+        for st, r in singles:
+            if st == 'exc':
+                ctx.note_raised(r, 'mixed-seq-single')
+        return
+    st, got = ctx.guarded(30, lambda: eval(f'a {sym} b', {'a': R, 'b': seq} if side == 'right' else {'a': seq, 'b': R}))
+    ctx.count('mixed_kind_sequence_cases')
+    ctx.case(cid)
+    wit = dict(config=cfg, expression=f'R {sym} <{seq_type.__name__} of {kinds}>' if side == 'right' else f'<{seq_type.__name__} of {kinds}> {sym} R',
+               element_keys=list(ks), R_keys=list(kr))
+    if st == 'timeout':
+        return
+    if st == 'exc':
+        ctx.violation('a sequence operand raised although the operator succeeds on every element alone', cid, error=f'{type(got).__name__}: {str(got)[:160]}', **wit)
+        return
+    if type(got) is not seq_type or len(got) != len(seq):
+        ctx.violation('sequence operand did not give the sequence of results of the same type', cid, got_type=type(got).__name__, **wit)
+        return
+    for j, (g, (_, w)) in enumerate(zip(got, singles)):
+        gd = mv_dict(g) if hasattr(g, 'keys') else {0: g}
+        wd = mv_dict(w) if hasattr(w, 'keys') else {0: w}
+        if elem_diff(gd, wd):
+            ctx.violation('element of the sequence result differs from the operator applied to that element alone', cid + [j], element=j, element_kind=kinds[j],
+                          in_sequence=show_elem(gd), alone=show_elem(wd), **wit)
+            return
 
 
 def wrap_operand(rng, kind, mv, mv2, number):
